@@ -2,7 +2,7 @@
    specification (nav_spec), and the lemmas relating vm/input.go:applyTarget (NavModel.apply_target)
    to it.  Part 1 holds DEFINITIONS (specification, invariants, run functions) that NavCorr.v and
    props/C04nav.v share; part 2 holds the lemmas. *)
-From Coq Require Import Lia ZifyN ZifyNat ZifyBool.
+From Coq Require Import Lia PeanoNat ZifyN ZifyNat ZifyBool.
 From Vise Require Import Bytes Errors Consts CacheModel StateModel NavModel BytesProofs.
 Local Open Scope N_scope.
 
@@ -107,3 +107,768 @@ Fixpoint pops (n : nat) (ca : cache) : cache :=
 
 Definition is_spanic (r : stat) : bool := match r with SPanic _ => true | _ => false end.
 Definition status_of (x : state * cache * bytes * stat) : stat := snd x.
+
+(* ================================================================================== *)
+(* Part 2 — lemmas                                                                    *)
+(* ================================================================================== *)
+
+(* ---- the patterns ---------------------------------------------------------------- *)
+Lemma input_regex_pinned : input_regex_src = "^\+?[a-zA-Z0-9].*$"%string.
+Proof. reflexivity. Qed.
+Lemma ctrl_regex_pinned : ctrl_regex_src = "^[><_^.]$"%string.
+Proof. reflexivity. Qed.
+Lemma sym_regex_pinned : sym_regex_src = "^[a-zA-Z0-9][a-zA-Z0-9_]+$"%string.
+Proof. reflexivity. Qed.
+
+Lemma catch_sym_val : catch_sym = [95; 99; 97; 116; 99; 104].
+Proof. reflexivity. Qed.
+
+Lemma valid_ctrl_char s :
+  valid_ctrl_b s = true <-> s = t_up \/ s = t_next \/ s = t_prev \/ s = t_top \/ s = t_same.
+Proof.
+  unfold t_up, t_next, t_prev, t_top, t_same. split.
+  - destruct s as [|c [|d r]]; cbn [valid_ctrl_b]; try discriminate. intros H.
+    assert (Hc : c = 62 \/ c = 60 \/ c = 95 \/ c = 94 \/ c = 46) by lia.
+    destruct Hc as [->|[->|[->|[->| ->]]]]; tauto.
+  - intros [->|[->|[->|[->| ->]]]]; reflexivity.
+Qed.
+
+Lemma forallb_Forall {A} (f : A -> bool) l : forallb f l = true <-> Forall (fun x => f x = true) l.
+Proof. rewrite forallb_forall, Forall_forall. reflexivity. Qed.
+
+Lemma valid_sym_char s :
+  valid_sym_b s = true <->
+  s = catch_sym \/
+  exists c r, s = c :: r /\ r <> [] /\ is_alnum c = true /\ Forall (fun x => is_symchar x = true) r.
+Proof.
+  unfold valid_sym_b. rewrite orb_true_iff, bytes_eqb_eq. split.
+  - intros [H|H]; [left; exact H|right].
+    destruct s as [|c [|d r]]; try discriminate. apply andb_true_iff in H. destruct H as [Hc Hr].
+    exists c, (d :: r). split; [reflexivity|]. split; [discriminate|]. split; [exact Hc|].
+    apply forallb_Forall. exact Hr.
+  - intros [H|H]; [left; exact H|right]. destruct H as (c & r & -> & Hne & Hc & Hr).
+    destruct r as [|d r]; [contradiction|]. apply andb_true_iff. split; [exact Hc|].
+    apply forallb_Forall. exact Hr.
+Qed.
+
+Lemma valid_sym_len s : valid_sym_b s = true -> 2 <= len s.
+Proof.
+  intros H. apply valid_sym_char in H. destruct H as [->|(c & r & -> & Hne & _)].
+  - vm_compute. discriminate.
+  - destruct r; [contradiction|]. rewrite !len_cons. lia.
+Qed.
+
+Lemma plus_match_ite (i : bytes) :
+  match i with 43 :: r => r | _ => i end =
+  match i with a :: r => if a =? 43 then r else i | [] => i end.
+Proof.
+  destruct i as [|a r]; [reflexivity|]. destruct a as [|p]; [reflexivity|].
+  do 6 (try (destruct p as [p|p|]; try reflexivity)).
+Qed.
+
+Lemma alnum_not_plus c : is_alnum c = true -> (c =? 43) = false.
+Proof. unfold is_alnum. lia. Qed.
+
+Lemma nolf_Forall r : forallb (fun x => negb (x =? 10)) r = true <-> Forall (fun x => x <> 10) r.
+Proof.
+  rewrite forallb_Forall. split; intros H; eapply Forall_impl; try exact H; cbv beta; intros a Ha; lia.
+Qed.
+
+(* ^\+?[a-zA-Z0-9].*$ : an optional "+", one alphanumeric byte, then anything without LF *)
+Lemma valid_input_char i :
+  valid_input_b i = true <->
+  exists c r, (i = c :: r \/ i = 43 :: c :: r) /\ is_alnum c = true /\ Forall (fun x => x <> 10) r.
+Proof.
+  unfold valid_input_b. rewrite plus_match_ite. split.
+  - destruct i as [|a r]; [discriminate|]. destruct (a =? 43) eqn:Ea.
+    + assert (a = 43) by lia. subst a. destruct r as [|c r']; [discriminate|].
+      intros H. apply andb_true_iff in H. destruct H as [Hc Hr]. exists c, r'.
+      split; [right; reflexivity|]. split; [exact Hc|]. apply nolf_Forall. exact Hr.
+    + intros H. apply andb_true_iff in H. destruct H as [Hc Hr]. exists a, r.
+      split; [left; reflexivity|]. split; [exact Hc|]. apply nolf_Forall. exact Hr.
+  - intros (c & r & [-> | ->] & Hc & Hr).
+    + rewrite (alnum_not_plus _ Hc). apply andb_true_iff. split; [exact Hc|]. apply nolf_Forall. exact Hr.
+    + change (43 =? 43) with true. cbv iota. apply andb_true_iff. split; [exact Hc|]. apply nolf_Forall. exact Hr.
+Qed.
+
+Lemma valid_target_char t : valid_target_b t = true <-> valid_sym_b t = true \/ valid_ctrl_b t = true.
+Proof.
+  unfold valid_target_b. destruct t as [|c r].
+  - split; [discriminate|]. intros [H|H]; [vm_compute in H|cbn in H]; discriminate.
+  - apply orb_true_iff.
+Qed.
+
+(* a node symbol is never one of the five control tokens *)
+Lemma sym_not_single t c : valid_sym_b t = true -> bytes_eqb t [c] = false.
+Proof.
+  intros H. apply valid_sym_len in H. destruct t as [|a [|b r]].
+  - reflexivity.
+  - rewrite !len_cons, len_nil in H. lia.
+  - cbn [bytes_eqb]. apply andb_false_r.
+Qed.
+
+Lemma sym_not_ctrl t : valid_sym_b t = true -> valid_ctrl_b t = false.
+Proof.
+  intros H. apply valid_sym_len in H. destruct t as [|a [|b r]]; try reflexivity.
+  rewrite !len_cons, len_nil in H. lia.
+Qed.
+
+Lemma target_cases t :
+  valid_target_b t = false \/ t = t_up \/ t = t_next \/ t = t_prev \/ t = t_top \/ t = t_same
+  \/ valid_sym_b t = true.
+Proof.
+  destruct (valid_target_b t) eqn:E; [|left; reflexivity]. right.
+  apply valid_target_char in E. destruct E as [E|E]; [tauto|].
+  apply valid_ctrl_char in E. tauto.
+Qed.
+
+(* the text's grammar of node names is not the code's *)
+Lemma doc_name_differs :
+  doc_name_b (s2b "x") = true /\ valid_sym_b (s2b "x") = false        (* one-letter names *)
+  /\ doc_name_b (s2b "1ab") = false /\ valid_sym_b (s2b "1ab") = true.  (* leading digit *)
+Proof. vm_compute. auto. Qed.
+
+(* ---- applyTarget as a chain of tests --------------------------------------------- *)
+Lemma ctrl_match_ite {A} (t : bytes) (X Y Z W V D : A) :
+  match t with [95] => X | [62] => Y | [60] => Z | [94] => W | [46] => V | _ => D end =
+  if bytes_eqb t t_up then X else if bytes_eqb t t_next then Y else if bytes_eqb t t_prev then Z
+  else if bytes_eqb t t_top then W else if bytes_eqb t t_same then V else D.
+Proof.
+  unfold t_up, t_next, t_prev, t_top, t_same.
+  destruct t as [|a r]; [reflexivity|].
+  destruct a as [|p]; [destruct r; reflexivity|].
+  do 7 (try (destruct p as [p|p|]; try (destruct r; reflexivity))).
+Qed.
+
+Definition do_up (st : state) (ca : cache) : state * cache * bytes * stat :=
+  match st_up st with
+  | Ok (sym', st') =>
+    match cache_pop ca with
+    | Ok ca' => (st', ca', sym', SOk)
+    | Err e => (st', ca, sym', SErr e None)
+    | Panic n => (st', ca, sym', SPanic n)
+    end
+  | Err e => (st, ca, [], SErr e None)
+  | Panic n => (st, ca, where_sym st, SPanic n)
+  end.
+Definition do_next (st : state) (ca : cache) : state * cache * bytes * stat :=
+  match st_next st with
+  | Ok st' => (st', ca, where_sym st, SOk)
+  | Err e => (st, ca, where_sym st, SErr e None)
+  | Panic n => (st, ca, where_sym st, SPanic n)
+  end.
+Definition do_prev (st : state) (ca : cache) : state * cache * bytes * stat :=
+  match st_previous st with
+  | Ok st' => (st', ca, where_sym st, SOk)
+  | Err EIndex => (st, ca, where_sym st, SErr EIndex (Some msg_index))
+  | Err e => (st, ca, where_sym st, SErr e None)
+  | Panic n => (st, ca, where_sym st, SPanic n)
+  end.
+Definition do_named (t : bytes) (st : state) (ca : cache) : state * cache * bytes * stat :=
+  if MaxLevel + 1 <=? len (s_path st) then (st, ca, t, SErr EGen None)
+  else match st_down st t with
+       | Ok st' => (st', cache_push ca, t, SOk)
+       | Err e => (st, ca, t, SErr e None)
+       | Panic n => (st, ca, t, SPanic n)
+       end.
+
+Lemma apply_target_ite t st ca :
+  apply_target t st ca =
+  if negb (valid_target_b t) then (st, ca, where_sym st, SErr EGen None)
+  else if bytes_eqb t t_up then do_up st ca
+  else if bytes_eqb t t_next then do_next st ca
+  else if bytes_eqb t t_prev then do_prev st ca
+  else if bytes_eqb t t_top then rewind (S (List.length (s_path st))) (where_sym st) st ca
+  else if bytes_eqb t t_same then (st, ca, where_sym st, SOk)
+  else do_named t st ca.
+Proof. unfold apply_target. cbv zeta. rewrite ctrl_match_ite. reflexivity. Qed.
+
+Lemma apply_invalid t st ca :
+  valid_target_b t = false -> apply_target t st ca = (st, ca, where_sym st, SErr EGen None).
+Proof. intros H. unfold apply_target. rewrite H. reflexivity. Qed.
+Lemma apply_up st ca : apply_target t_up st ca = do_up st ca.
+Proof. reflexivity. Qed.
+Lemma apply_next st ca : apply_target t_next st ca = do_next st ca.
+Proof. reflexivity. Qed.
+Lemma apply_prev st ca : apply_target t_prev st ca = do_prev st ca.
+Proof. reflexivity. Qed.
+Lemma apply_top st ca :
+  apply_target t_top st ca = rewind (S (List.length (s_path st))) (where_sym st) st ca.
+Proof. reflexivity. Qed.
+Lemma apply_same st ca : apply_target t_same st ca = (st, ca, where_sym st, SOk).
+Proof. reflexivity. Qed.
+Lemma apply_named t st ca : valid_sym_b t = true -> apply_target t st ca = do_named t st ca.
+Proof.
+  intros H. rewrite apply_target_ite.
+  assert (Hv : valid_target_b t = true) by (apply valid_target_char; left; exact H).
+  rewrite Hv. cbn [negb]. unfold t_up, t_next, t_prev, t_top, t_same.
+  rewrite !(sym_not_single t _ H). reflexivity.
+Qed.
+
+(* the table, row by row *)
+Lemma nav_spec_up p : nav_spec p t_up = if len (fst p) <=? 1 then None else Some (removelast (fst p), 0).
+Proof. destruct p; reflexivity. Qed.
+Lemma nav_spec_top p :
+  nav_spec p t_top = if len (fst p) <=? 1 then Some p else Some (firstn 1 (fst p), 0).
+Proof. destruct p; reflexivity. Qed.
+Lemma nav_spec_same p : nav_spec p t_same = Some p.
+Proof. destruct p; reflexivity. Qed.
+Lemma nav_spec_next p :
+  nav_spec p t_next = match fst p with [] => None | _ => Some (fst p, w16 (snd p + 1)) end.
+Proof. destruct p; reflexivity. Qed.
+Lemma nav_spec_prev p :
+  nav_spec p t_prev =
+  match fst p with [] => None | _ => if snd p =? 0 then None else Some (fst p, snd p - 1) end.
+Proof. destruct p; reflexivity. Qed.
+Lemma nav_spec_named p t : valid_sym_b t = true -> nav_spec p t = Some (fst p ++ [t], 0).
+Proof.
+  intros H. destruct p as [path idx]. unfold nav_spec, t_up, t_next, t_prev, t_top, t_same.
+  rewrite !(sym_not_single t _ H), H. reflexivity.
+Qed.
+Lemma nav_spec_invalid p t : valid_target_b t = false -> nav_spec p t = None.
+Proof.
+  intros H. destruct p as [path idx].
+  destruct (target_cases t) as [_|[E|[E|[E|[E|[E|E]]]]]]; try (subst t; vm_compute in H; discriminate).
+  - unfold nav_spec.
+    assert (Hs : valid_sym_b t = false).
+    { destruct (valid_sym_b t) eqn:Es; [|reflexivity].
+      assert (valid_target_b t = true) by (apply valid_target_char; left; exact Es). congruence. }
+    assert (Hc : valid_ctrl_b t = false).
+    { destruct (valid_ctrl_b t) eqn:Es; [|reflexivity].
+      assert (valid_target_b t = true) by (apply valid_target_char; right; exact Es). congruence. }
+    assert (Hn : forall x, In x [t_up; t_next; t_prev; t_top; t_same] -> bytes_eqb t x = false).
+    { intros x Hx. destruct (bytes_eqb t x) eqn:Ex; [|reflexivity]. apply bytes_eqb_eq in Ex. subst x.
+      assert (valid_ctrl_b t = true).
+      { cbn [In] in Hx. destruct Hx as [<-|[<-|[<-|[<-|[<-|[]]]]]]; reflexivity. }
+      congruence. }
+    rewrite !Hn by (cbn [In]; tauto). rewrite Hs. reflexivity.
+  - assert (valid_target_b t = true) by (apply valid_target_char; left; exact E). congruence.
+Qed.
+
+(* ---- cache depth under Pop / Push ------------------------------------------------- *)
+Lemma levels_ne ca : c_frames ca <> [] <-> 1 <= cache_levels ca.
+Proof.
+  unfold cache_levels. destruct (c_frames ca); [rewrite len_nil|rewrite len_cons]; split; intros H; try lia; try discriminate.
+  contradiction.
+Qed.
+
+Lemma pop_levels ca :
+  c_frames ca <> [] ->
+  exists ca', cache_pop ca = Ok ca' /\ c_frames ca' <> []
+    /\ cache_levels ca' = (if cache_levels ca =? 1 then 1 else cache_levels ca - 1).
+Proof.
+  intros Hne. destruct (exists_last Hne) as [pre [top Hfs]].
+  unfold cache_pop, cache_levels. rewrite Hfs, rev_app_distr. cbn [rev app]. rewrite rev_involutive.
+  eexists. split; [reflexivity|]. cbn [c_frames]. rewrite len_app, len_cons, len_nil.
+  destruct pre as [|f pre]; [split; [discriminate|reflexivity]|].
+  split; [discriminate|]. rewrite len_cons.
+  destruct (1 + len pre + (1 + 0) =? 1) eqn:E; lia.
+Qed.
+
+Lemma pop_never_panics ca : is_panic (cache_pop ca) = false.
+Proof. unfold cache_pop. destruct (rev (c_frames ca)); reflexivity. Qed.
+
+Lemma push_levels ca : cache_levels (cache_push ca) = cache_levels ca + 1.
+Proof. unfold cache_levels, cache_push. cbn [c_frames]. rewrite len_app, len_cons, len_nil. lia. Qed.
+
+Lemma pops_ne n : forall ca, c_frames ca <> [] -> c_frames (pops n ca) <> [].
+Proof.
+  induction n as [|n IH]; intros ca Hne; [exact Hne|]. cbn [pops].
+  destruct (pop_levels ca Hne) as (ca' & Hp & Hne' & _). rewrite Hp. apply IH. exact Hne'.
+Qed.
+
+Lemma pops_levels n : forall ca,
+  N.of_nat n + 1 <= cache_levels ca -> cache_levels (pops n ca) + N.of_nat n = cache_levels ca.
+Proof.
+  induction n as [|n IH]; intros ca Hl; [cbn [pops]; lia|]. cbn [pops].
+  assert (Hne : c_frames ca <> []) by (apply levels_ne; lia).
+  destruct (pop_levels ca Hne) as (ca' & Hp & Hne' & Hlv). rewrite Hp.
+  destruct (cache_levels ca =? 1) eqn:E; [lia|].
+  specialize (IH ca'). lia.
+Qed.
+
+(* ---- state helpers ---------------------------------------------------------------- *)
+Lemma state_eta st : st = set_path_idx st (s_path st) (s_idx st).
+Proof. destruct st; reflexivity. Qed.
+
+Lemma removelast_snoc {A} (l : list A) a : removelast (l ++ [a]) = l.
+Proof. apply removelast_last. Qed.
+
+Lemma length_removelast {A} (l : list A) : l <> [] -> S (List.length (removelast l)) = List.length l.
+Proof.
+  intros Hne. destruct (exists_last Hne) as [pre [a ->]]. rewrite removelast_snoc, app_length. cbn. lia.
+Qed.
+
+(* ---- Rewind ------------------------------------------------------------------------ *)
+Lemma rewind_status fuel : forall sym st ca, snd (rewind fuel sym st ca) = SOk.
+Proof.
+  induction fuel as [|f IH]; intros sym st ca; [reflexivity|]. cbn [rewind].
+  unfold st_top, st_up. destruct (s_path st) as [|a [|b l]]; try reflexivity.
+  destruct (cache_pop ca) eqn:Ep; try reflexivity; [apply IH|].
+  pose proof (pop_never_panics ca) as Hn. rewrite Ep in Hn. discriminate.
+Qed.
+
+Lemma st_top_deep st e r z : s_path st = e :: r ++ [z] -> st_top st = Ok false.
+Proof. intros H. unfold st_top. rewrite H. destruct r; reflexivity. Qed.
+Lemma st_up_ne st :
+  s_path st <> [] ->
+  st_up st = Ok (last (removelast (s_path st)) [], set_path_idx st (removelast (s_path st)) 0).
+Proof. intros H. unfold st_up. destruct (s_path st); [contradiction|reflexivity]. Qed.
+
+(* with at least one cache frame: the stack is cut down to its first element, one Pop per
+   removed level; nothing happens when the entry node is already current *)
+Lemma rewind_cons fuel : forall rest e sym st ca,
+  s_path st = e :: rest -> (List.length rest < fuel)%nat -> c_frames ca <> [] ->
+  rewind fuel sym st ca =
+  (match rest with [] => st | _ => set_path_idx st [e] 0 end,
+   pops (List.length rest) ca,
+   match rest with [] => sym | _ => e end, SOk).
+Proof.
+  induction fuel as [|f IH]; intros rest e sym st ca Hp Hf Hne; [lia|]. cbn [rewind].
+  destruct rest as [|r0 rest0].
+  - unfold st_top. rewrite Hp. reflexivity.
+  - assert (Hrne : r0 :: rest0 <> []) by discriminate.
+    destruct (exists_last Hrne) as [rest' [z Hr]]. rewrite Hr in *. clear Hrne Hr r0 rest0.
+    rewrite (st_top_deep st e rest' z Hp).
+    assert (Hpne : s_path st <> []) by (rewrite Hp; discriminate).
+    rewrite (st_up_ne st Hpne), Hp.
+    assert (Hpl : removelast (e :: rest' ++ [z]) = e :: rest').
+    { change (e :: rest' ++ [z]) with ((e :: rest') ++ [z]). apply removelast_snoc. }
+    rewrite Hpl.
+    assert (Hl : List.length (rest' ++ [z]) = S (List.length rest')) by (rewrite app_length; cbn; lia).
+    rewrite Hl in *. cbn [pops].
+    destruct (pop_levels ca Hne) as (ca' & Hpop & Hne' & _). rewrite Hpop.
+    rewrite (IH rest' e (last (e :: rest') []) (set_path_idx st (e :: rest') 0) ca'); [|reflexivity|lia|exact Hne'].
+    destruct rest' as [|r1 rest1]; [|destruct (rest1 ++ [z]) eqn:E; [destruct rest1; discriminate|]]; reflexivity.
+Qed.
+
+(* ---- one call of applyTarget ------------------------------------------------------ *)
+Lemma nav_code_not_up p t : bytes_eqb t t_up = false -> nav_code p t = nav_spec p t.
+Proof. intros H. unfold nav_code, up_at_entry. rewrite H. reflexivity. Qed.
+
+Lemma nav_code_guard p t : up_at_entry p t = false -> nav_code p t = nav_spec p t.
+Proof. intros H. unfold nav_code. rewrite H. reflexivity. Qed.
+
+Lemma where_sym_set st p i : where_sym (set_path_idx st p i) = last p [].
+Proof. reflexivity. Qed.
+
+(* a call that returns without error: position per the code's table, returned symbol, the
+   rest of the state untouched, and the cache pushed once / popped once per removed level *)
+Lemma apply_ok_exact t st ca st' ca' sym :
+  c_frames ca <> [] ->
+  apply_target t st ca = (st', ca', sym, SOk) ->
+  nav_code (pos_of st) t = Some (pos_of st')
+  /\ sym = where_sym st'
+  /\ st' = set_path_idx st (s_path st') (s_idx st')
+  /\ ca' = (if valid_sym_b t then cache_push ca
+            else pops (List.length (s_path st) - List.length (s_path st')) ca).
+Proof.
+  intros Hne.
+  destruct (target_cases t) as [E|[E|[E|[E|[E|[E|E]]]]]]; try subst t.
+  - rewrite (apply_invalid _ _ _ E). intros H. inversion H.
+  - (* _ *)
+    rewrite apply_up. unfold do_up. destruct (s_path st) as [|a l] eqn:Ep.
+    + unfold st_up. rewrite Ep. intros H. inversion H.
+    + assert (Hpne : s_path st <> []) by (rewrite Ep; discriminate).
+      rewrite (st_up_ne st Hpne). destruct (pop_levels ca Hne) as (ca1 & Hpop & _ & _). rewrite Hpop.
+      intros H. inversion H; subst st' ca' sym; clear H.
+      pose proof (length_removelast (s_path st) Hpne) as Hlen.
+      cbn [s_path s_idx set_path_idx]. repeat split.
+      * unfold nav_code, up_at_entry, pos_of. cbn [fst set_path_idx s_path s_idx].
+        change (bytes_eqb t_up t_up) with true. cbn [andb].
+        destruct (len (s_path st) =? 1) eqn:E1.
+        -- rewrite Ep in *. destruct l; [reflexivity|]. rewrite !len_cons in E1. lia.
+        -- rewrite nav_spec_up. cbn [fst]. destruct (len (s_path st) <=? 1) eqn:E2; [|reflexivity].
+           rewrite Ep in *. rewrite len_cons in *. lia.
+      * change (valid_sym_b t_up) with false. cbv iota. rewrite <- Ep.
+        replace (List.length (s_path st) - List.length (removelast (s_path st)))%nat with 1%nat by lia.
+        cbn [pops]. rewrite Hpop. reflexivity.
+  - (* > *)
+    rewrite apply_next. unfold do_next, st_next. destruct (s_path st) as [|a l] eqn:Ep; intros H; inversion H; subst st' ca' sym; clear H.
+    cbn [s_path s_idx set_path_idx]. repeat split.
+    + rewrite nav_code_not_up by reflexivity. rewrite nav_spec_next. unfold pos_of. cbn [fst snd set_path_idx s_path s_idx].
+      rewrite Ep. reflexivity.
+    + unfold where_sym. cbn [s_path set_path_idx]. rewrite Ep. reflexivity.
+    + change (valid_sym_b t_next) with false. cbv iota. rewrite Nat.sub_diag. reflexivity.
+  - (* < *)
+    rewrite apply_prev. unfold do_prev, st_previous. destruct (s_path st) as [|a l] eqn:Ep; [intros H; inversion H|].
+    destruct (s_idx st =? 0) eqn:E0; intros H; inversion H; subst st' ca' sym; clear H.
+    cbn [s_path s_idx set_path_idx]. repeat split.
+    + rewrite nav_code_not_up by reflexivity. rewrite nav_spec_prev. unfold pos_of. cbn [fst snd set_path_idx s_path s_idx].
+      rewrite Ep, E0. reflexivity.
+    + unfold where_sym. cbn [s_path set_path_idx]. rewrite Ep. reflexivity.
+    + change (valid_sym_b t_prev) with false. cbv iota. rewrite Nat.sub_diag. reflexivity.
+  - (* ^ *)
+    rewrite apply_top. change (valid_sym_b t_top) with false. cbv iota.
+    rewrite nav_code_not_up by reflexivity. rewrite nav_spec_top. unfold pos_of at 1. cbn [fst].
+    destruct (s_path st) as [|e rest] eqn:Ep.
+    + cbn [List.length rewind]. unfold st_top. rewrite Ep. intros H. inversion H; subst st' ca' sym; clear H.
+      rewrite Ep. cbn [List.length Nat.sub pops]. unfold pos_of. rewrite Ep.
+      repeat split. rewrite <- Ep. apply state_eta.
+    + rewrite (rewind_cons _ rest e _ st ca Ep); [|cbn [List.length]; lia|exact Hne].
+      intros H. inversion H; subst st' ca' sym; clear H.
+      destruct rest as [|r rest1].
+      * rewrite Ep. cbn [List.length Nat.sub pops]. unfold pos_of, where_sym. rewrite Ep.
+        repeat split. rewrite <- Ep. apply state_eta.
+      * cbn [s_path s_idx set_path_idx]. unfold pos_of. cbn [s_path s_idx set_path_idx].
+        assert (Hl : (len (e :: r :: rest1) <=? 1) = false) by (rewrite !len_cons; lia).
+        rewrite Hl. cbn [fst]. rewrite Ep. cbn [firstn]. repeat split.
+  - (* . *)
+    rewrite apply_same. intros H. inversion H; subst st' ca' sym; clear H.
+    rewrite nav_code_not_up by reflexivity. rewrite nav_spec_same.
+    change (valid_sym_b t_same) with false. cbv iota. rewrite Nat.sub_diag.
+    repeat split. apply state_eta.
+  - (* named node *)
+    rewrite (apply_named _ _ _ E), E. unfold do_named, st_down.
+    destruct (MaxLevel + 1 <=? len (s_path st)) eqn:E1; [intros H; inversion H|].
+    destruct (MaxLevel <? len (s_path st)) eqn:E2; [intros H; inversion H|].
+    rewrite (nav_code_not_up _ _ (sym_not_single t _ E)), (nav_spec_named _ _ E).
+    unfold pos_of at 1. cbn [fst].
+    destruct (s_path st) as [|a l] eqn:Ep.
+    + intros H. inversion H; subst st' ca' sym; clear H. repeat split.
+    + destruct (bytes_eqb (last (a :: l) []) t) eqn:E3; intros H; inversion H; subst st' ca' sym; clear H.
+      unfold pos_of, where_sym. cbn [s_path s_idx set_path_idx]. repeat split.
+      symmetry. change (a :: l ++ [t]) with ((a :: l) ++ [t]). apply last_last.
+Qed.
+
+(* a call that returns an error or panics leaves state and cache exactly as they were *)
+Lemma apply_fail_unchanged t st ca st' ca' sym r :
+  c_frames ca <> [] ->
+  apply_target t st ca = (st', ca', sym, r) -> r <> SOk -> st' = st /\ ca' = ca.
+Proof.
+  intros Hne.
+  destruct (target_cases t) as [E|[E|[E|[E|[E|[E|E]]]]]]; try subst t.
+  - rewrite (apply_invalid _ _ _ E). intros H _. inversion H. auto.
+  - rewrite apply_up. unfold do_up. destruct (s_path st) as [|a l] eqn:Ep.
+    + unfold st_up. rewrite Ep. intros H _. inversion H. auto.
+    + assert (Hpne : s_path st <> []) by (rewrite Ep; discriminate).
+      rewrite (st_up_ne st Hpne). destruct (pop_levels ca Hne) as (ca1 & Hpop & _ & _). rewrite Hpop.
+      intros H Hr. inversion H. congruence.
+  - rewrite apply_next. unfold do_next, st_next. destruct (s_path st); intros H Hr; inversion H; auto. congruence.
+  - rewrite apply_prev. unfold do_prev, st_previous. destruct (s_path st); [intros H Hr; inversion H; auto|].
+    destruct (s_idx st =? 0); intros H Hr; inversion H; auto. congruence.
+  - rewrite apply_top. intros H Hr. pose proof (rewind_status (S (List.length (s_path st))) (where_sym st) st ca) as Hs.
+    rewrite H in Hs. cbn [snd] in Hs. congruence.
+  - rewrite apply_same. intros H Hr. inversion H. congruence.
+  - rewrite (apply_named _ _ _ E). unfold do_named, st_down.
+    destruct (MaxLevel + 1 <=? len (s_path st)); [intros H _; inversion H; auto|].
+    destruct (MaxLevel <? len (s_path st)); [intros H _; inversion H; auto|].
+    destruct (s_path st) as [|a l]; [intros H Hr; inversion H; congruence|].
+    destruct (bytes_eqb (last (a :: l) []) t); intros H Hr; inversion H; auto. congruence.
+Qed.
+
+(* shape of one row of the code's table *)
+Lemma nav_code_shape p t p' :
+  nav_code p t = Some p' ->
+  (if valid_sym_b t then fst p' = fst p ++ [t] /\ snd p' = 0
+   else (List.length (fst p') <= List.length (fst p))%nat /\ (snd p < 65536 -> snd p' < 65536)).
+Proof.
+  destruct p as [path idx].
+  destruct (target_cases t) as [E|[E|[E|[E|[E|[E|E]]]]]]; try subst t.
+  - assert (Hn : bytes_eqb t t_up = false).
+    { destruct (bytes_eqb t t_up) eqn:Eu; [|reflexivity]. apply bytes_eqb_eq in Eu. subst t. vm_compute in E. discriminate. }
+    rewrite (nav_code_not_up _ _ Hn), (nav_spec_invalid _ _ E). discriminate.
+  - change (valid_sym_b t_up) with false. cbv iota. unfold nav_code, up_at_entry. cbn [fst].
+    change (bytes_eqb t_up t_up) with true. cbn [andb].
+    destruct (len path =? 1) eqn:E1.
+    + intros H. inversion H. cbn [fst snd List.length]. split; [lia|lia].
+    + rewrite nav_spec_up. cbn [fst]. destruct (len path <=? 1) eqn:E2; [discriminate|].
+      intros H. inversion H. cbn [fst snd]. split; [|lia].
+      destruct path as [|a l]; [cbn; lia|].
+      assert (Hne : a :: l <> []) by discriminate. pose proof (length_removelast _ Hne). lia.
+  - change (valid_sym_b t_next) with false. cbv iota. rewrite nav_code_not_up by reflexivity.
+    rewrite nav_spec_next. cbn [fst snd]. destruct path; [discriminate|]. intros H. inversion H. cbn [fst snd].
+    split; [lia|]. intros _. unfold w16. apply N.mod_lt. discriminate.
+  - change (valid_sym_b t_prev) with false. cbv iota. rewrite nav_code_not_up by reflexivity.
+    rewrite nav_spec_prev. cbn [fst snd]. destruct path; [discriminate|]. destruct (idx =? 0); [discriminate|].
+    intros H. inversion H. cbn [fst snd]. split; lia.
+  - change (valid_sym_b t_top) with false. cbv iota. rewrite nav_code_not_up by reflexivity.
+    rewrite nav_spec_top. cbn [fst snd]. destruct (len path <=? 1); intros H; inversion H; cbn [fst snd].
+    + split; [lia|auto].
+    + split; [|lia]. destruct path; cbn [List.length]; lia.
+  - change (valid_sym_b t_same) with false. cbv iota. rewrite nav_code_not_up by reflexivity.
+    rewrite nav_spec_same. intros H. inversion H. cbn [fst snd]. split; [lia|auto].
+  - rewrite E. rewrite (nav_code_not_up _ _ (sym_not_single t _ E)), (nav_spec_named _ _ E).
+    intros H. inversion H. cbn [fst snd]. auto.
+Qed.
+
+(* a descent that succeeded was within the depth limit and not into the current node *)
+Lemma apply_named_ok_depth t st ca st' ca' sym :
+  valid_sym_b t = true -> apply_target t st ca = (st', ca', sym, SOk) ->
+  len (s_path st) <= MaxLevel /\ (s_path st = [] \/ last (s_path st) [] <> t).
+Proof.
+  intros E. rewrite (apply_named _ _ _ E). unfold do_named, st_down.
+  destruct (MaxLevel + 1 <=? len (s_path st)) eqn:E1; [intros H; inversion H|].
+  destruct (MaxLevel <? len (s_path st)) eqn:E2; [intros H; inversion H|].
+  destruct (s_path st) as [|a l] eqn:Ep; [intros _; split; [lia|left; reflexivity]|].
+  destruct (bytes_eqb (last (a :: l) []) t) eqn:E3; intros H; inversion H.
+  split; [lia|right]. intros Hx. apply bytes_eqb_eq in Hx. congruence.
+Qed.
+
+(* cache depth follows the stack depth *)
+Lemma apply_levels t st ca st' ca' sym r :
+  nav_inv st ca -> apply_target t st ca = (st', ca', sym, r) ->
+  nav_inv st' ca' /\ cache_levels ca' + len (s_path st) = cache_levels ca + len (s_path st').
+Proof.
+  unfold nav_inv. intros Hinv H.
+  assert (Hne : c_frames ca <> []) by (apply levels_ne; lia).
+  destruct r.
+  - destruct (apply_ok_exact _ _ _ _ _ _ Hne H) as (Hc & _ & _ & Hca).
+    apply nav_code_shape in Hc. unfold pos_of in Hc. cbn [fst snd] in Hc.
+    destruct (valid_sym_b t).
+    + destruct Hc as [Hp _]. subst ca'. rewrite push_levels, Hp, len_app, len_cons, len_nil. lia.
+    + destruct Hc as [Hl _]. subst ca'.
+      pose proof (pops_levels (List.length (s_path st) - List.length (s_path st')) ca) as Hpl.
+      unfold len in *. lia.
+  - destruct (apply_fail_unchanged _ _ _ _ _ _ _ Hne H) as [-> ->]; [discriminate|lia].
+  - destruct (apply_fail_unchanged _ _ _ _ _ _ _ Hne H) as [-> ->]; [discriminate|lia].
+  - destruct (apply_fail_unchanged _ _ _ _ _ _ _ Hne H) as [-> ->]; [discriminate|lia].
+Qed.
+
+Lemma apply_wf t st ca st' ca' sym r :
+  wf_nav st ca -> apply_target t st ca = (st', ca', sym, r) -> wf_nav st' ca'.
+Proof.
+  intros (Hinv & Hd & Hi) H. destruct (apply_levels _ _ _ _ _ _ _ Hinv H) as [Hinv' _].
+  split; [exact Hinv'|].
+  assert (Hne : c_frames ca <> []) by (apply levels_ne; unfold nav_inv in Hinv; lia).
+  assert (Hcase : r = SOk \/ r <> SOk) by (destruct r; [left; reflexivity|right; discriminate ..]).
+  destruct Hcase as [->|Hr].
+  - destruct (apply_ok_exact _ _ _ _ _ _ Hne H) as (Hc & _ & _ & _).
+    apply nav_code_shape in Hc. unfold pos_of in Hc. cbn [fst snd] in Hc.
+    destruct (valid_sym_b t) eqn:Es.
+    + destruct (apply_named_ok_depth _ _ _ _ _ _ Es H) as [Hm _]. destruct Hc as [Hp Hz].
+      rewrite Hp, Hz, len_app, len_cons, len_nil. lia.
+    + destruct Hc as [Hl Hz]. unfold len in *. split; [lia|auto].
+  - destruct (apply_fail_unchanged _ _ _ _ _ _ _ Hne H Hr) as [-> ->]. auto.
+Qed.
+
+(* refinement of the documented table, outside the one finding class *)
+Lemma apply_refines_spec_partial t st ca st' ca' sym :
+  1 <= cache_levels ca ->
+  up_at_entry (pos_of st) t = false ->
+  apply_target t st ca = (st', ca', sym, SOk) ->
+  nav_spec (pos_of st) t = Some (pos_of st')
+  /\ sym = where_sym st'
+  /\ st' = set_path_idx st (s_path st') (s_idx st')
+  /\ (nav_inv st ca -> cache_levels ca' + len (s_path st) = cache_levels ca + len (s_path st')).
+Proof.
+  intros Hl Hg H. apply levels_ne in Hl.
+  destruct (apply_ok_exact _ _ _ _ _ _ Hl H) as (Hc & Hs & Hst & _).
+  rewrite (nav_code_guard _ _ Hg) in Hc. repeat split; try assumption.
+  intros Hinv. apply (apply_levels _ _ _ _ _ _ _ Hinv H).
+Qed.
+
+(* ... and the finding: "_" at the entry node returns without error and empties the stack *)
+Lemma apply_up_at_entry st ca e :
+  s_path st = [e] -> 1 <= cache_levels ca ->
+  exists ca', cache_pop ca = Ok ca'
+    /\ apply_target t_up st ca = (set_path_idx st [] 0, ca', [], SOk)
+    /\ nav_spec (pos_of st) t_up = None.
+Proof.
+  intros Hp Hl. apply levels_ne in Hl. destruct (pop_levels ca Hl) as (ca' & Hpop & _ & _).
+  exists ca'. split; [exact Hpop|]. split.
+  - rewrite apply_up. unfold do_up, st_up. rewrite Hp, Hpop. reflexivity.
+  - rewrite nav_spec_up. unfold pos_of. cbn [fst]. rewrite Hp. reflexivity.
+Qed.
+
+Lemma refines_spec_refuted_up_at_entry :
+  exists t st ca st' ca' sym,
+    1 <= cache_levels ca /\ nav_inv st ca /\ up_at_entry (pos_of st) t = true
+    /\ apply_target t st ca = (st', ca', sym, SOk) /\ nav_spec (pos_of st) t = None
+    /\ s_path st' = [].
+Proof.
+  exists t_up, (set_path_idx (new_state 0) [s2b "root"] 0), (cache_push (new_cache 0)).
+  eexists. eexists. eexists. vm_compute. repeat split. discriminate.
+Qed.
+
+(* ---- failures, exactly ------------------------------------------------------------ *)
+Lemma fail_prev_at_zero st ca :
+  s_path st <> [] -> s_idx st = 0 ->
+  apply_target t_prev st ca = (st, ca, where_sym st, SErr EIndex (Some msg_index)).
+Proof.
+  intros Hp Hi. rewrite apply_prev. unfold do_prev, st_previous. destruct (s_path st); [contradiction|].
+  rewrite Hi. reflexivity.
+Qed.
+Lemma fail_lateral_empty st ca :
+  s_path st = [] ->
+  apply_target t_prev st ca = (st, ca, [], SErr EGen None)
+  /\ apply_target t_next st ca = (st, ca, [], SErr EGen None).
+Proof.
+  intros Hp. rewrite apply_prev, apply_next. unfold do_prev, do_next, st_previous, st_next, where_sym. rewrite Hp. auto.
+Qed.
+Lemma fail_up_empty st ca : s_path st = [] -> apply_target t_up st ca = (st, ca, [], SErr EGen None).
+Proof. intros Hp. rewrite apply_up. unfold do_up, st_up. rewrite Hp. reflexivity. Qed.
+Lemma fail_depth t st ca :
+  valid_sym_b t = true -> MaxLevel + 1 <= len (s_path st) ->
+  apply_target t st ca = (st, ca, t, SErr EGen None).
+Proof.
+  intros E Hd. rewrite (apply_named _ _ _ E). unfold do_named.
+  destruct (MaxLevel + 1 <=? len (s_path st)) eqn:E1; [reflexivity|lia].
+Qed.
+Lemma next_never_fails st ca :
+  s_path st <> [] ->
+  apply_target t_next st ca = (set_path_idx st (s_path st) (w16 (s_idx st + 1)), ca, where_sym st, SOk).
+Proof. intros Hp. rewrite apply_next. unfold do_next, st_next. destruct (s_path st); [contradiction|reflexivity]. Qed.
+
+(* ---- panics ------------------------------------------------------------------------ *)
+Lemma apply_panic_iff t st ca :
+  is_spanic (snd (apply_target t st ca)) = true <->
+  valid_sym_b t = true /\ s_path st <> [] /\ len (s_path st) <= MaxLevel /\ last (s_path st) [] = t.
+Proof.
+  destruct (target_cases t) as [E|[E|[E|[E|[E|[E|E]]]]]]; try subst t.
+  - rewrite (apply_invalid _ _ _ E). cbn [snd is_spanic]. split; [discriminate|].
+    intros [Hs _]. assert (valid_target_b t = true) by (apply valid_target_char; left; exact Hs). congruence.
+  - rewrite apply_up. unfold do_up, st_up. split; [|intros [Hs _]; vm_compute in Hs; discriminate].
+    destruct (s_path st); [discriminate|]. pose proof (pop_never_panics ca) as Hn.
+    destruct (cache_pop ca); cbn [snd is_spanic]; try discriminate.
+  - rewrite apply_next. unfold do_next, st_next. split; [|intros [Hs _]; vm_compute in Hs; discriminate].
+    destruct (s_path st); discriminate.
+  - rewrite apply_prev. unfold do_prev, st_previous. split; [|intros [Hs _]; vm_compute in Hs; discriminate].
+    destruct (s_path st); [discriminate|]. destruct (s_idx st =? 0); discriminate.
+  - rewrite apply_top, rewind_status. split; [discriminate|intros [Hs _]; vm_compute in Hs; discriminate].
+  - rewrite apply_same. split; [discriminate|intros [Hs _]; vm_compute in Hs; discriminate].
+  - rewrite (apply_named _ _ _ E). unfold do_named, st_down. split.
+    + destruct (MaxLevel + 1 <=? len (s_path st)) eqn:E1; [discriminate|].
+      destruct (MaxLevel <? len (s_path st)) eqn:E2; [lia|].
+      destruct (s_path st) as [|a l] eqn:Ep; [discriminate|].
+      destruct (bytes_eqb (last (a :: l) []) t) eqn:E3; [|discriminate]. intros _.
+      apply bytes_eqb_eq in E3. repeat split; try assumption; try discriminate; try lia.
+    + intros (_ & Hp & Hd & Hl).
+      destruct (MaxLevel + 1 <=? len (s_path st)) eqn:E1; [lia|].
+      destruct (MaxLevel <? len (s_path st)) eqn:E2; [lia|].
+      destruct (s_path st) as [|a l] eqn:Ep; [contradiction|]. rewrite Hl, bytes_eqb_refl. reflexivity.
+Qed.
+
+(* ---- histories ---------------------------------------------------------------------- *)
+Lemma nav_run_code ts : forall st ca st2 ca2 log,
+  c_frames ca <> [] -> nav_run st ca ts = (st2, ca2, log) ->
+  nav_fold nav_code (pos_of st) log = Some (pos_of st2) /\ c_frames ca2 <> [].
+Proof.
+  induction ts as [|t ts IH]; intros st ca st2 ca2 log Hne H.
+  - cbn [nav_run] in H. inversion H; subst. split; [reflexivity|exact Hne].
+  - cbn [nav_run] in H. destruct (apply_target t st ca) as [[[st1 ca1] sym] r] eqn:Ea.
+    destruct (nav_run st1 ca1 ts) as [[st3 ca3] log3] eqn:Er. inversion H; subst st3 ca3 log; clear H.
+    assert (Hcase : r = SOk \/ r <> SOk) by (destruct r; [left; reflexivity|right; discriminate ..]).
+    destruct Hcase as [->|Hr].
+    + destruct (apply_ok_exact _ _ _ _ _ _ Hne Ea) as (Hc & _ & _ & Hca).
+      assert (Hne1 : c_frames ca1 <> []).
+      { subst ca1. destruct (valid_sym_b t); [|apply pops_ne; exact Hne].
+        unfold cache_push. cbn [c_frames]. destruct (c_frames ca); discriminate. }
+      destruct (IH _ _ _ _ _ Hne1 Er) as [Hf Hne2]. split; [|exact Hne2].
+      cbn [nav_fold]. rewrite Hc. exact Hf.
+    + destruct (apply_fail_unchanged _ _ _ _ _ _ _ Hne Ea Hr) as [-> ->].
+      destruct (IH _ _ _ _ _ Hne Er) as [Hf Hne2]. split; [|exact Hne2].
+      destruct r; [congruence|exact Hf ..].
+Qed.
+
+Lemma fold_spec_code ms : forall p, up_free p ms = true -> nav_fold nav_spec p ms = nav_fold nav_code p ms.
+Proof.
+  induction ms as [|m ms IH]; intros p H; [reflexivity|]. cbn [up_free] in H. cbn [nav_fold].
+  apply andb_true_iff in H. destruct H as [Hg Hr]. apply negb_true_iff in Hg.
+  rewrite <- (nav_code_guard _ _ Hg). destruct (nav_code p m) as [p'|]; [apply IH; exact Hr|reflexivity].
+Qed.
+
+Lemma nav_run_spec_partial ts st ca st2 ca2 log :
+  1 <= cache_levels ca -> nav_run st ca ts = (st2, ca2, log) ->
+  up_free (pos_of st) log = true ->
+  nav_fold nav_spec (pos_of st) log = Some (pos_of st2).
+Proof.
+  intros Hl H Hg. apply levels_ne in Hl. rewrite (fold_spec_code _ _ Hg).
+  apply (nav_run_code ts _ _ _ _ _ Hl H).
+Qed.
+
+Lemma nav_run_wf ts : forall st ca st2 ca2 log,
+  wf_nav st ca -> nav_run st ca ts = (st2, ca2, log) -> wf_nav st2 ca2.
+Proof.
+  induction ts as [|t ts IH]; intros st ca st2 ca2 log Hw H.
+  - cbn [nav_run] in H. inversion H; subst. exact Hw.
+  - cbn [nav_run] in H. destruct (apply_target t st ca) as [[[st1 ca1] sym] r] eqn:Ea.
+    destruct (nav_run st1 ca1 ts) as [[st3 ca3] log3] eqn:Er. inversion H; subst st3 ca3 log; clear H.
+    eapply IH; [|exact Er]. eapply apply_wf; eauto.
+Qed.
+
+Lemma fold_refuted_up_at_entry :
+  exists ts st ca st2 ca2 log,
+    wf_nav st ca /\ nav_run st ca ts = (st2, ca2, log) /\ up_free (pos_of st) log = false
+    /\ nav_fold nav_spec (pos_of st) log = None.
+Proof.
+  exists [s2b "root"; t_up], (new_state 0), (new_cache 0).
+  eexists. eexists. eexists. vm_compute. repeat split; try discriminate; reflexivity.
+Qed.
+
+(* ---- statements assembled for props/C04nav.v ---------------------------------------- *)
+Lemma failures_exact_lemma st ca :
+  1 <= cache_levels ca ->
+  (* every call that fails (error or panic) leaves state and cache as they were *)
+  (forall t st' ca' sym r, apply_target t st ca = (st', ca', sym, r) -> r <> SOk -> st' = st /\ ca' = ca)
+  (* "<" on the first page: IndexError *)
+  /\ (s_path st <> [] -> s_idx st = 0 ->
+      apply_target t_prev st ca = (st, ca, where_sym st, SErr EIndex (Some msg_index)))
+  (* no entry node yet: "_", "<", ">" fail *)
+  /\ (s_path st = [] ->
+      apply_target t_up st ca = (st, ca, [], SErr EGen None)
+      /\ apply_target t_prev st ca = (st, ca, [], SErr EGen None)
+      /\ apply_target t_next st ca = (st, ca, [], SErr EGen None))
+  (* "_" AT the entry node does not fail: nil error, empty stack, symbol "" *)
+  /\ (forall e, s_path st = [e] ->
+      exists ca', cache_pop ca = Ok ca' /\ apply_target t_up st ca = (set_path_idx st [] 0, ca', [], SOk))
+  (* malformed target *)
+  /\ (forall t, valid_target_b t = false -> apply_target t st ca = (st, ca, where_sym st, SErr EGen None))
+  (* depth limit *)
+  /\ (forall t, valid_sym_b t = true -> MaxLevel + 1 <= len (s_path st) ->
+      apply_target t st ca = (st, ca, t, SErr EGen None))
+  (* ">" never fails once there is a node; the index wraps at 2^16 *)
+  /\ (s_path st <> [] ->
+      apply_target t_next st ca = (set_path_idx st (s_path st) (w16 (s_idx st + 1)), ca, where_sym st, SOk)).
+Proof.
+  intros Hl. pose proof Hl as Hne. apply levels_ne in Hne.
+  split; [intros t st' ca' sym r H Hr; exact (apply_fail_unchanged _ _ _ _ _ _ _ Hne H Hr)|].
+  split; [apply fail_prev_at_zero|].
+  split; [intros Hp; split; [apply fail_up_empty; exact Hp|apply fail_lateral_empty; exact Hp]|].
+  split; [intros e Hp; destruct (apply_up_at_entry st ca e Hp Hl) as (ca' & H1 & H2 & _); exists ca'; auto|].
+  split; [intros t; apply apply_invalid|].
+  split; [intros t; apply fail_depth|apply next_never_fails].
+Qed.
+
+Lemma regex_pinned_lemma :
+  input_regex_src = "^\+?[a-zA-Z0-9].*$"%string
+  /\ ctrl_regex_src = "^[><_^.]$"%string
+  /\ sym_regex_src = "^[a-zA-Z0-9][a-zA-Z0-9_]+$"%string.
+Proof. repeat split. Qed.
+
+Lemma matchers_char_lemma s :
+  (valid_input_b s = true <->
+     exists c r, (s = c :: r \/ s = 43 :: c :: r) /\ is_alnum c = true /\ Forall (fun x => x <> 10) r)
+  /\ (valid_sym_b s = true <->
+     s = catch_sym \/
+     exists c r, s = c :: r /\ r <> [] /\ is_alnum c = true /\ Forall (fun x => is_symchar x = true) r)
+  /\ (valid_ctrl_b s = true <-> s = t_up \/ s = t_next \/ s = t_prev \/ s = t_top \/ s = t_same)
+  /\ (valid_target_b s = true <-> valid_sym_b s = true \/ valid_ctrl_b s = true)
+  /\ (valid_sym_b s = true -> valid_ctrl_b s = false).
+Proof.
+  split; [apply valid_input_char|]. split; [apply valid_sym_char|]. split; [apply valid_ctrl_char|].
+  split; [apply valid_target_char|apply sym_not_ctrl].
+Qed.
+
+Lemma apply_exact_lemma t st ca st' ca' sym :
+  1 <= cache_levels ca ->
+  apply_target t st ca = (st', ca', sym, SOk) ->
+  nav_code (pos_of st) t = Some (pos_of st')
+  /\ sym = where_sym st'
+  /\ st' = set_path_idx st (s_path st') (s_idx st')
+  /\ ca' = (if valid_sym_b t then cache_push ca
+            else pops (List.length (s_path st) - List.length (s_path st')) ca).
+Proof. intros Hl. apply apply_ok_exact. apply levels_ne. exact Hl. Qed.
+
+Lemma nav_run_code_lemma ts st ca st2 ca2 log :
+  1 <= cache_levels ca -> nav_run st ca ts = (st2, ca2, log) ->
+  nav_fold nav_code (pos_of st) log = Some (pos_of st2).
+Proof. intros Hl H. apply levels_ne in Hl. apply (nav_run_code ts _ _ _ _ _ Hl H). Qed.
+
+Lemma lockstep_lemma t st ca st' ca' sym r :
+  wf_nav st ca -> apply_target t st ca = (st', ca', sym, r) ->
+  wf_nav st' ca' /\ cache_levels ca' + len (s_path st) = cache_levels ca + len (s_path st').
+Proof.
+  intros Hw H. split; [eapply apply_wf; eauto|]. destruct Hw as [Hinv _].
+  apply (apply_levels _ _ _ _ _ _ _ Hinv H).
+Qed.
